@@ -152,6 +152,10 @@ func (s *SourceDescription) Unmarshal(rawPacket []byte) error {
 		return errWrongType
 	}
 
+	// chunks left over from an earlier Unmarshal into the same value must not
+	// count towards this packet's source count
+	s.Chunks = nil
+
 	for i := headerLength; i < len(rawPacket); {
 		var chunk SourceDescriptionChunk
 		if err := chunk.Unmarshal(rawPacket[i:]); err != nil {
